@@ -743,6 +743,9 @@ func runC03(p *Prog, r *Report) {
 	} else {
 		r.Undecided("D3-omissions", "anchor:gomod.Extract", "-", "not found")
 	}
+	c03HelperErrorExits(p, r, "D3-omissions")
+	r.Rule("D4-no-shared-line-state", "a record's scratch state is not shared with the next record")
+	c03FreshLineBuffer(p, r, "D4-no-shared-line-state")
 	// helper predicates that decide those branches: frozen truth tables
 	r.Rule("D3-predicates", "boolean helpers deciding a branch of a package loop compute the audited function of their atomic tests")
 	npred := 0
